@@ -42,7 +42,7 @@ CONSTANTS
   NodeRefs,     \* [NodeIds -> Seq([t : id, f : BOOLEAN, c : class bit, n : target id])]
   GhostNodes,   \* node ids used in queries that do not exist (unknown node / unknown namespace)
   QueryTypes,   \* reference type ids used in queries (existing or not); Null is added
-  ClassBits,    \* class mask bits used in queries
+  MaskSets,     \* class masks used in queries (sets of class bits; {} = mask 0 = all)
   HasSubtypeId, \* id of the HasSubtype reference type (i=45)
   Dev_IgnoreSubtypeFlag,
   Dev_DeleteLoop,
@@ -118,7 +118,7 @@ AlgTypeOK(rt, sub, t)  == AlgTypeOKD(rt, sub, t, Dev_IgnoreSubtypeFlag)
 RefPanics(r, qq) == DirOK(qq.dir, r.f) /\ TypePanics(qq.rt, qq.sub, r.t)
 AlgMatch(r, qq)  == DirOK(qq.dir, r.f) /\ AlgTypeOK(qq.rt, qq.sub, r.t) /\ ClassOK(qq.mask, r.c)
 
-Queries == [dir : Dirs, rt : QueryTypes \cup {Null}, sub : BOOLEAN, mask : SUBSET ClassBits]
+Queries == [dir : Dirs, rt : QueryTypes \cup {Null}, sub : BOOLEAN, mask : MaskSets]
 
 Init == /\ node \in NodeIds \cup GhostNodes
         /\ q \in Queries
